@@ -17,8 +17,8 @@ func init() {
 		NotCovered: "that the concrete text each printer emits is what the parser accepts for that node; type and pattern precedence tables; associativity choices that only produce redundant parentheses.",
 	}
 	props["C31"] = &PropSpec{
-		Rules:      []string{"cover/astsplice", "cover/asttraverse", "macro/boundary-scope", "effect/selfrec"},
-		Decides:    "that the body of every macro boundary is compiled and checked inside a scope of its own on every path, so locals of an expansion cannot land in the caller's scope; that macro expansion cannot lose part of a quoted tree: every node's splice carries every field over and every node's traverse visits every field that can hold a sub-tree; no node method is an unconditional self call.",
+		Rules:      []string{"cover/astsplice", "cover/asttraverse", "macro/boundary-scope", "macro/env-walkers", "effect/selfrec"},
+		Decides:    "that every function of the checker that walks up the chain of local environments tests for the macro-boundary environment (the one place where hygiene is enforced); that the body of every macro boundary is compiled and checked inside a scope of its own on every path, so locals of an expansion cannot land in the caller's scope; that macro expansion cannot lose part of a quoted tree: every node's splice carries every field over and every node's traverse visits every field that can hold a sub-tree; no node method is an unconditional self call.",
 		NotCovered: "capture-freedom under colliding names (scope handling of macro boundaries in checker and compiler); that expansion results are wrapped in macro boundary nodes.",
 	}
 	props["C33"] = &PropSpec{
